@@ -202,6 +202,73 @@ def check(model, tier):
             )
     if sites < 3:
         raise AnalysisError("Processor._process_recursive no longer reads or attaches payloads")
+    # ---- R07.12 attach only where it can succeed, and only a payload that exists
+    run.rule(
+        "R07.12",
+        "every attach_payload in _process_recursive targets a node the path knows to be without payload (the node being "
+        "processed, or an unwrapped marker whose payload was just tested to be None) and never passes on a payload read "
+        "from another node without having tested it: attaching to a leaf or to an already-persisted materialization raises "
+        "TypeError half-way through processing, attaching None leaves the node unpersisted for ever",
+        3,
+    )
+    def _alias_infeasible(p) -> bool:
+        """`x = y` followed by the path taking `x is not y` (or refusing `x is y`) cannot be executed."""
+        for j, s in enumerate(p.steps):
+            if s.kind != "cond":
+                continue
+            t, pol = s.node, s.value
+            while isinstance(t, ast.UnaryOp) and isinstance(t.op, ast.Not):
+                t, pol = t.operand, not pol
+            if not (isinstance(t, ast.Compare) and len(t.ops) == 1 and isinstance(t.ops[0], (ast.Is, ast.IsNot))):
+                continue
+            a, b = t.left, t.comparators[0]
+            if not (isinstance(a, ast.Name) and isinstance(b, ast.Name)):
+                continue
+            e = env_at(p, j)
+            same = any(isinstance(e.get(x.id), ast.Name) and e[x.id].id == y.id for x, y in ((a, b), (b, a)))
+            if same and pol != isinstance(t.ops[0], ast.Is):
+                return True
+        return False
+
+    for i, p in enumerate(paths):
+        facts = None
+        if _alias_infeasible(p):
+            continue
+        for j, c in path_calls(p):
+            if call_attr(c) != "attach_payload" or not isinstance(c.func, ast.Attribute) or not c.args:
+                continue
+            if facts is None:
+                facts = path_facts(p)
+            envj = env_at(p, j)
+            recv = c.func.value
+            rtxt = src(recv)
+            inst = f"attach:{rtxt}:path{i}"
+
+            def _names_for(expr_txt: str) -> set[str]:
+                out = {expr_txt}
+                for nm, b in envj.items():
+                    if isinstance(b, ast.AST) and src(b) == expr_txt:
+                        out.add(nm)
+                return out
+
+            problem = None
+            if rtxt != orig:
+                texts = _names_for(f"{rtxt}.payload")
+                empty = any(fct.kind == "IS" and fct.polarity and "None" in fct.args and set(fct.args) & texts for fct in facts)
+                if not empty:
+                    problem = f"`{src(c)[:70]}` attaches to `{rtxt}` on a path that has not established `{rtxt}.payload is None`: when that node is a leaf or an already persisted materialization the call raises TypeError after the input tree was already modified"
+            v = c.args[0]
+            vb = envj.get(v.id) if isinstance(v, ast.Name) else v
+            if problem is None and isinstance(vb, ast.Attribute) and vb.attr == "payload":
+                texts = {src(v)} | _names_for(src(vb))
+                tested = any(fct.kind == "IS" and not fct.polarity and "None" in fct.args and set(fct.args) & texts for fct in facts)
+                persisted_flag = any(fct.kind == "TRUTH" and fct.polarity and "persisted" in fct.args[0] for fct in facts)
+                if not tested and not persisted_flag:
+                    problem = f"`{src(c)[:70]}` passes on `{src(vb)[:50]}` without having tested that it is not None: the node stays without payload and is evaluated again by every later run"
+            if problem:
+                run.fail("R07.12", inst, problem, fi=f, node=c, details=describe(p))
+            else:
+                run.ok("R07.12", inst)
     # ---- R07.7 trivial payloads come from the engine the node lives in
     run.rule(
         "R07.7",
